@@ -17,12 +17,12 @@ import (
 // C12 — weights decode to their declared shape, type and exact values, or are refused.
 
 type tpCase struct {
-	ReplayKind string  `json:"replay_kind"`
-	TP         string  `json:"tensorproto_b64"`
-	Via        string  `json:"via"`    // direct | initializer | constant
-	Expect     string  `json:"expect"` // exact | error | exact-or-error
-	Expected   *hx.TJ  `json:"expected,omitempty"`
-	Desc       string  `json:"desc"`
+	ReplayKind string `json:"replay_kind"`
+	TP         string `json:"tensorproto_b64"`
+	Via        string `json:"via"`    // direct | initializer | constant
+	Expect     string `json:"expect"` // exact | error | exact-or-error
+	Expected   *hx.TJ `json:"expected,omitempty"`
+	Desc       string `json:"desc"`
 }
 
 func init() {
